@@ -1754,9 +1754,14 @@ class Gen:
             for f in fields:
                 if self.chance(20):
                     f["kw"] = True
-            return ([f for f in fields if not f.get("kw") and f.get("d") is None]
-                    + [f for f in fields if not f.get("kw") and f.get("d") is not None]
-                    + [f for f in fields if f.get("kw")])
+            pos = ([f for f in fields if not f.get("kw") and f.get("d") is None]
+                   + [f for f in fields if not f.get("kw") and f.get("d") is not None])
+            if self.chance(50):
+                # a keyword-only field may be declared anywhere (typically: inherited from a base class): the order of the FIELDS
+                # then differs from the order of the constructor's PARAMETERS
+                it = iter(pos)
+                return [f if f.get("kw") else next(it) for f in fields]
+            return pos + [f for f in fields if f.get("kw")]
         if kind == "namedtuple":
             return [f for f in fields if f.get("d") is None] + [f for f in fields if f.get("d") is not None]
         # plain __init__: positional-only (never defaulted: adaptix documents nothing about them), positional, kw-only
